@@ -56,10 +56,16 @@ def case_generators(rep):
                     run.units["generator:Grid:%s:%d" % (indexing, nax)] += 1
             fem.Circle(radius=1.0, n=3, sections=[0, 90])
             fem.Circle(radius=2.0, n=4, sections=[0, 90, 180, 270], value=0.2, exponent=3)
+            # general section angles (one to four non-overlapping quarter sections, anywhere on the circle)
+            for sec in ([30, 120], [45], [0, 90, 180], [10, 100, 190, 280], [float(rng.uniform(0, 360))]):
+                fem.Circle(radius=float(rng.uniform(0.5, 3)), centerpoint=list(rng.uniform(-1, 1, 2)), n=int(rng.integers(2, 6)), sections=sec)
+            # scalar point counts
+            fem.Rectangle(a=(0.3, -0.2), b=(1.1, 0.9), n=int(rng.integers(2, 5)))
+            fem.Cube(a=(0.3, -0.2, 1.0), b=(1.1, 0.9, 1.7), n=int(rng.integers(2, 4)))
             for order in (2, 3, 4, 5):
                 a = rng.uniform(-1, 0, 2)
                 fem.mesh.RectangleArbitraryOrderQuad(a=tuple(a), b=tuple(a + rng.uniform(1, 2, 2)), order=order)
-                if order < 5:
+                if order < 5 or run.tier == "thorough":
                     a = rng.uniform(-1, 0, 3)
                     fem.mesh.CubeArbitraryOrderHexahedron(a=tuple(a), b=tuple(a + rng.uniform(1, 2, 3)), order=order)
         finally:
@@ -245,6 +251,8 @@ def case_special(name):
                     for phi, n in ((90, 7), (180, 11), (360, 13), (45.0, 3)):
                         r.revolve(n=n, phi=phi, axis=axis)
                 fem.mesh.Line(a=1, b=3, n=4).revolve(n=6, phi=120, axis=2)
+                r.revolve(n=7, phi=-180, axis=1)  # documented usage for the second axis
+                r.revolve(phi=-np.array([0.0, 20.0, 75.0, 130.0]), axis=1)
                 # angle arrays that do not start at zero: a closed ring (last = first + 360), an open sweep ending exactly at 360
                 rq = fem.Rectangle(a=(0.5, 1.0), b=(2.0, 2.0), n=(4, 3))
                 s0 = float(rng.uniform(10, 80))
@@ -320,17 +328,24 @@ def case_special(name):
                             run.fail("mesh.merge_duplicate_points", "tool=merge_duplicate_points decimals=%s clause=count" % dec,
                                      "merge: %d points remain, expected %d" % (len(s.points), exp))
                         fem.MeshContainer([cc.copy(), cc.translate(5 * h, 1)], merge=True, decimals=dec)
-                    cont = fem.MeshContainer([m, m.translate(ext, 0)], merge=True)
-                    st = cont.stack()
-                    v = OC.signed_volumes(st.points, st.cells, st.cell_type)
+                # containers: stacking all / a selection of the meshes, after appending (every cell type; the selection need not
+                # start with the first mesh)
+                for m in (r, c, r.triangulate(), c.triangulate()):
+                    ext = m.points[:, 0].max() - m.points[:, 0].min()
+                    other = (r.triangulate() if m.cell_type == "quad" else r) if m.dim == 2 else (c.triangulate() if m.cell_type == "hexahedron" else c)
+                    cont = fem.MeshContainer([m, m.translate(ext, 0), other.translate(-3 * ext, 0)], merge=True)
+                    cont += m.translate(2 * ext, 0)
                     v0 = OC.signed_volumes(m.points, m.cells, m.cell_type)
-                    run.compare("mesh.container", "tool=MeshContainer clause=stack-volume", abs(v.sum() - 2 * v0.sum()) / v0.sum(),
-                                1e-11, "MeshContainer(merge=True).stack(): volume differs from the sum of the parts",
-                                unit="container:volume", config=("container", m.cell_type))
-                    if np.all(v > 0):
-                        run.ok("mesh.container", unit="container:orientation")
-                    else:
-                        run.fail("mesh.container", "tool=MeshContainer clause=orientation", "stacked container has non-positive cells")
+                    for idx, k in ((None if False else [0, 1], 2), ([0, 1, 3], 3), ([1, 3], 2), ([3], 1)):
+                        st = cont.stack(idx)
+                        v = OC.signed_volumes(st.points, st.cells, st.cell_type)
+                        run.compare("mesh.container", "tool=MeshContainer clause=stack-volume", abs(v.sum() - k * v0.sum()) / v0.sum(),
+                                    1e-11, "MeshContainer(merge=True).stack(%s): volume differs from the sum of the selected parts" % idx,
+                                    unit="container:volume", config=("container", m.cell_type, tuple(idx)))
+                        if np.all(v > 0) and st.cell_type == m.cell_type:
+                            run.ok("mesh.container", unit="container:orientation")
+                        else:
+                            run.fail("mesh.container", "tool=MeshContainer clause=orientation", "stacked container has non-positive cells or another cell type")
             elif name == "fill_between":
                 for k in range(4):
                     n = int(rng.integers(3, 7))
@@ -368,7 +383,10 @@ def _required():
     req = ["program-length>=3"]
     for g in ("Line", "Rectangle", "Cube", "Grid", "Circle", "Triangle"):
         req += ["gen.%s:orientation" % g, "gen.%s:volume" % g, "gen.%s:unused-points" % g, "gen.%s:duplicate-points" % g]
-    req += ["gen.RectangleArbitraryOrderQuad:layout", "gen.CubeArbitraryOrderHexahedron:layout", "gen.Circle:boundary"]
+    req += ["gen.RectangleArbitraryOrderQuad:layout", "gen.CubeArbitraryOrderHexahedron:layout", "gen.Circle:boundary",
+            "gen.RectangleArbitraryOrderQuad:volume", "gen.CubeArbitraryOrderHexahedron:volume", "gen.Grid:coordinates",
+            "gen.Line:bounds", "gen.Rectangle:bounds", "gen.Cube:bounds", "gen.Triangle:bounds", "input-untouched",
+            "rotate:positions", "translate:positions", "flip:selection", "expand:layers", "revolve:segments"]
     for t in ("rotate", "translate", "mirror", "triangulate", "expand", "revolve", "concatenate", "disconnect"):
         req += [t + ":volume", t + ":orientation"]
     req += ["flip:double", "mirror:reflection", "rotate:isometry", "add_midpoints_edges:centroid", "add_midpoints_faces:centroid",
